@@ -91,6 +91,22 @@ def guard_of_decrement(f, defs, bi):
             for sb in safe:
                 if sb in dom.get(bi, ()) or sb == bi:
                     return True
+        elif F.is_load_of(e, RRI, 'rrs_left') and any(v == 0 for v, _ in t['targets']):
+            # `match rrs_left { 0 => .., _ => .. }`: every edge but the 0 arm is safe
+            for sb in [tb for v, tb in t['targets'] if v != 0] + [t['otherwise']]:
+                if sb in dom.get(bi, ()) or sb == bi:
+                    return True
+        elif e[0] == 'binop' and e[1] in ('Gt', 'Ge', 'Lt', 'Le') and F.is_load_of(e[2], RRI, 'rrs_left') and e[3][0] == 'const':
+            # rrs_left > 0 / >= 1 (safe on true), rrs_left < 1 / <= 0 (safe on false)
+            c = e[3][1]
+            safe_true = (e[1] == 'Gt' and c == 0) or (e[1] == 'Ge' and c == 1)
+            safe_false = (e[1] == 'Lt' and c == 1) or (e[1] == 'Le' and c == 0)
+            if safe_true or safe_false:
+                tru = t['otherwise'] if all(v == 0 for v, _ in t['targets']) else next((tb for v, tb in t['targets'] if v == 1), None)
+                fal = next((tb for v, tb in t['targets'] if v == 0), None)
+                sb = tru if safe_true else fal
+                if sb is not None and (sb in dom.get(bi, ()) or sb == bi):
+                    return True
     return False
 
 
@@ -159,11 +175,14 @@ def none_rule(ctx, facts, cfg):
                     e = F.expr(f, defs, t['discr'])
                     truth_here = (t['otherwise'] == bi and all(v == 0 for v, _ in t['targets'])) or any(v == 1 and tb == bi for v, tb in t['targets'])
                     zero = e[0] == 'binop' and ((e[1] == 'Eq' and e[3] == ('const', 0)) or (e[1] == 'Le' and e[3] == ('const', 0)) or (e[1] == 'Lt' and e[3] == ('const', 1)))
+                    x = e[2] if zero else None
+                    if not zero and e[0] != 'binop' and any(v == 0 and tb == bi for v, tb in t['targets']) and t['otherwise'] != bi:
+                        # `match count { 0 => return None, .. }`: the switch is on the count itself and this is its 0 arm
+                        zero, truth_here, x = True, True, e
                     if not (zero and truth_here):
                         why.append('entered on a test that is not `count == 0` (%s)' % str(e)[:60])
                         continue
                     rs = F.roots(f, defs, t['discr'])
-                    x = e[2]
                     src_ok = any((r[0] == 'call' and r[1] in COUNTS) or (r[0] == 'load' and F.last_field(r[1]) in ((PP, 'edns_count'), (RRI, 'rrs_left'))) for r in rs) or \
                         (x[0] == 'call' and x[1] in COUNTS) or F.is_load_of(x, PP, 'edns_count') or F.is_load_of(x, RRI, 'rrs_left')
                     if not src_ok:
